@@ -1,46 +1,57 @@
 //go:build verif
 
 // Export shim of property C13: a clientSets without its background loops, so that the harness decides when
-// sync runs and what the lookup returns.
+// sync and the heartbeat run and what the lookup returns. It is built by the package's own constructor and
+// its state is only ever set by the real sync(); the leader table is read by ROLE ("one shared table keyed by
+// the shard id"), whatever its representation.
 package clientsets
 
 import (
+	"context"
 	"sort"
+	"sync"
 	"time"
 
 	"k8s.io/client-go/rest"
 )
 
-// VerifC13NewClientSets builds a clientSets like newClientSets does, minus the three goroutines, with a given
-// state (shardCount, leaderEndpoints) and lookup function.
-func VerifC13NewClientSets(restConfig *rest.Config, lookup LookupFunc, shardCount int, leaders map[int]string) ClientSets {
-	c := &clientSets{
-		service:    "verif",
-		lookupFunc: lookup,
-		restConfig: restConfig,
-		runId:      "verif",
-		insecure:   len(restConfig.TLSClientConfig.CAData) == 0,
-		shardCount: shardCount,
-	}
-	for k, v := range leaders {
-		c.leaderEndpoints.Store(k, v)
-	}
-	return c
+// VerifC13NewClientSets builds a clientSets with the real constructor on a context that is already over (the
+// three loops `wait.Until(…, ctx.Done())` return at once) and gives it the lookup function.
+func VerifC13NewClientSets(restConfig *rest.Config, lookup LookupFunc) ClientSets {
+	ctx, cancel := context.WithCancel(context.Background())
+	cancel()
+	cs := NewClientSetsWithRestConfig(ctx, "verif", "verif", restConfig)
+	cs.(*clientSets).lookupFunc = lookup
+	return cs
 }
+
+// VerifC13SetLookup replaces the lookup function.
+func VerifC13SetLookup(cs ClientSets, lookup LookupFunc) { cs.(*clientSets).lookupFunc = lookup }
 
 // VerifC13Sync runs one sync round (lookup, GET server info, copy shard count and leaders).
 func VerifC13Sync(cs ClientSets) { cs.(*clientSets).sync() }
 
-// VerifC13State returns shardCount and leaderEndpoints.
+// VerifC13State returns shardCount and the shard -> leader table.
 func VerifC13State(cs ClientSets) (int, map[int]string, []int) {
 	c := cs.(*clientSets)
 	m := map[int]string{}
+	switch t := interface{}(&c.leaderEndpoints).(type) {
+	case *sync.Map:
+		t.Range(func(k, v interface{}) bool {
+			m[k.(int)] = v.(string)
+			return true
+		})
+	case *map[int]string:
+		for k, v := range *t { // the harness reads while nothing else runs
+			m[k] = v
+		}
+	default:
+		panic("VerifC13State: leaderEndpoints has a representation this shim does not know")
+	}
 	var keys []int
-	c.leaderEndpoints.Range(func(k, v interface{}) bool {
-		m[k.(int)] = v.(string)
-		keys = append(keys, k.(int))
-		return true
-	})
+	for k := range m {
+		keys = append(keys, k)
+	}
 	sort.Ints(keys)
 	return c.shardCount, m, keys
 }
